@@ -141,7 +141,11 @@ def subjects(prog, tier):
             x = proper_crossing(e, "e1", "e2", "s1", "s2")
             t1 = (same_pt(e, "s2", "e1") | on_open_segment(e, "s1", "s2", "e1")) & (orient(e, "s1", "s2", "e2") != 0)
             t2 = (same_pt(e, "s2", "e2") | on_open_segment(e, "s1", "s2", "e2")) & (orient(e, "s1", "s2", "e1") != 0)
-            t = ~x & (t1 | t2)
+            # a corner of the shape strictly inside the edge, the edge not running along this side (added with repair 5c1a400: the side-level
+            # reference used to mirror the code and so could not see that a line through two corners was missed; the shape-level
+            # meaning is decided by rule SHAPE-BLOCKING)
+            t3 = on_open_segment(e, "e1", "e2", "s2") & (orient(e, "e1", "e2", "s1") != 0)
+            t = ~x & (t1 | t2 | t3)
             ret = x | (t & seen)
             seen_out = np.where(x, seen, np.where(t, True, seen))
             return ret.astype(np.int64) * 2 + seen_out.astype(np.int64)
@@ -271,6 +275,78 @@ def rule_intersection_point(chk, prog):
         (r.bad if bad else r.ok)(q.split("::")[-1], fn.where(), bad or "%d intersecting paths" % n_hit)
 
 
+def rule_shape_blocking(chk, prog, only=None):
+    """Composition of segmentShapeIntersect over the sides of one convex shape, as firstBlocker / newBlockingShape scan them."""
+    from ..microai.interp import Interp, Oracle, default_obj
+    r = chk.rule("SHAPE-BLOCKING", "segmentShapeIntersect composed over all sides of a convex polygon with one `seen` flag per shape (the scan of "
+                 "EdgeInf::firstBlocker and Router::newBlockingShape; scan started at every side), interpreted for every segment between "
+                 "lattice points that has no end point strictly inside the polygon: the scan reports `blocked` exactly when the segment "
+                 "contains a point strictly inside the polygon -- lines through two corners, through a corner and a side, along a side, "
+                 "touching one corner and ending on the boundary included (square, triangle and pentagon on a 7 x 7 lattice)", floor=3)
+    fn = prog.fn("Avoid::segmentShapeIntersect")
+    polys = {"square": [(2, 2), (4, 2), (4, 4), (2, 4)], "triangle": [(1, 1), (5, 1), (3, 5)], "pentagon": [(2, 1), (4, 1), (5, 3), (3, 5), (1, 3)]}
+    if only:
+        polys = {k_: v_ for k_, v_ in polys.items() if k_ in only}
+        r.floor = len(polys)
+
+    def pt(x, y):
+        return default_obj(prog, "Avoid::Point", {"x": Fraction(x), "y": Fraction(y), "id": 0, "vn": 8})
+
+    def cross(o, a, b):
+        return (a[0] - o[0]) * (b[1] - o[1]) - (a[1] - o[1]) * (b[0] - o[0])
+
+    def strictly_inside(poly, p):
+        sg = [cross(poly[i], poly[(i + 1) % len(poly)], p) for i in range(len(poly))]
+        return all(x > 0 for x in sg) or all(x < 0 for x in sg)
+
+    def enters(poly, a, b):
+        """Does the closed segment ab contain a point strictly inside the convex polygon?  Clip the parameter interval against every side."""
+        orient = 1 if cross(poly[0], poly[1], poly[2]) > 0 else -1
+        lo, hi = Fraction(0), Fraction(1)
+        for i in range(len(poly)):
+            p, q = poly[i], poly[(i + 1) % len(poly)]
+            fa, fb = orient * cross(p, q, a), orient * cross(p, q, b)       # > 0 strictly on the inner side
+            if fa <= 0 and fb <= 0:
+                return False
+            if fa <= 0 or fb <= 0:
+                t = Fraction(fa, fa - fb)
+                if fa <= 0:
+                    lo = max(lo, t)
+                else:
+                    hi = min(hi, t)
+        return lo < hi
+    lattice = [(x, y) for x in range(7) for y in range(7)]
+    for name, poly in polys.items():
+        bad, n = None, 0
+        it = Interp(prog, Oracle([]), max_steps=50000000)
+        P = {p_: pt(*p_) for p_ in set(lattice) | set(poly)}
+        for a in lattice:
+            if strictly_inside(poly, a):
+                continue
+            for b in lattice:
+                if b <= a or strictly_inside(poly, b):
+                    continue
+                want = enters(poly, a, b)
+                for start in range(len(poly)):
+                    seen = Box(False)
+                    got = False
+                    for k in range(len(poly)):
+                        s1, s2 = poly[(start + k) % len(poly)], poly[(start + k + 1) % len(poly)]
+                        try:
+                            if it.call(fn, None, None, None, arg_values=[P[a], P[b], P[s1], P[s2], seen]):
+                                got = True
+                                break
+                        except Unsupported as e:
+                            raise AnalysisBroken("segmentShapeIntersect outside the interpreter subset: %s" % e)
+                    n += 1
+                    if bool(got) != want and bad is None:
+                        bad = "segment %s-%s, scan started at side %d: reported %s, the segment %s the interior" % (
+                            a, b, start, "blocked" if got else "not blocked", "passes through" if want else "does not enter")
+        r.count()
+        r.evaluations = getattr(r, "evaluations", 0) + n
+        (r.bad if bad else r.ok)(name, fn.where(), bad or "%d (segment, start side) scans" % n)
+
+
 def run(chk):
     prog = chk.load(None)
     tier = chk.tier
@@ -304,6 +380,7 @@ def run(chk):
 
     total_rows, total_real, total_grid = run_subjects(chk, prog, tier)
     chk.guard(rule_intersection_point, chk, prog)
+    chk.guard(rule_shape_blocking, chk, prog, None if tier == "thorough" else ("square", "triangle"))
     chk.extra["decision_tree_paths"] = total_rows
     chk.extra["realisable_sign_classes"] = total_real
     chk.extra["grid_tuples_classified"] = total_grid
